@@ -15,6 +15,13 @@ func VerifC06ParseTG() {
 	}
 	n := int(rt.Fix(rt.Int("len", 0, max)))
 	buf := rt.Bytes("tg", n)
+	if n >= 16 {
+		// a write-set count between 2^16 and 2^48 makes the native run allocate up to terabytes before
+		// any check (the process is killed by the OS rather than panicking): allocation failure is
+		// outside the claim, so those counts are excluded; larger counts panic in make() and are kept
+		c := io.ToInt64(buf[8:16])
+		rt.Assume(c < 1<<16 || c >= 1<<48)
+	}
 	rt.Reach("entered")
 	_, sets := ParseTGData(buf, "/root")
 	rt.Observe("nsets", int64(len(sets)))
